@@ -5,6 +5,7 @@ mod util;
 mod checks;
 mod data;
 mod httpd;
+mod hooks;
 mod rpkigen;
 mod etree;
 mod prom;
